@@ -26,7 +26,11 @@ Definition fs_has (f : fsys) (n : fname) : bool := match fs_get f n with Some _ 
 Record tobj := mkObj { o_name : fname; o_fromdoc : bool; o_lo : N; o_hi : N }.
 Inductive ftask := FNone | FBegin | FSwap (n : nat) (ts : list table) | FEnd.
 Inductive ctask := CNone | CBegin | CIter | CSwap (added : list fname) | CEnd.
-Inductive nbmode := NbNone | NbNeeds | NbErr | NbLive.
+Inductive nbmode := NbNone | NbNeeds | NbErr
+  | NbLive (* every other live object answers truthfully (DB.NeedsTable); a crashed member of the same assembly cannot answer: error *)
+  | NbOp.  (* the neighbours are the other operators of the assembly (the objects restored with NbOp), asked through the real
+              Operator.HandleNeedsTable: a deployed (live) one answers from its database, a registered but not deployed one (its
+              process crashed, awaiting redeploy) cannot answer - the RPC fails - which must mean keep *)
 Inductive dstate := Live | Crashed | Dropped.
 Record ckrec := mkCk { c_id : N; c_tabs : list table; c_wal : fname; c_content : list entry; c_after : N; c_lastseq : N }.
 
@@ -156,7 +160,11 @@ Definition cleanup_deletes (w : world) (x : wdb) (o : tobj) : bool :=
       | NbNone => true
       | NbNeeds => false
       | NbErr => false
-      | NbLive => negb (existsb (fun y => is_live y && needs_table y (o_name o)) (g_dbs w))
+      | NbLive => negb (existsb (fun y => (is_live y && needs_table y (o_name o))
+                                          || (match x_state y, x_nb y with Crashed, NbLive => true | _, _ => false end)) (g_dbs w))
+      | NbOp => negb (existsb (fun y => match x_nb y with
+                                        | NbOp => (is_live y && needs_table y (o_name o)) || (match x_state y with Crashed => true | _ => false end)
+                                        | _ => false end) (g_dbs w))
       end
   end.
 
@@ -260,9 +268,17 @@ Definition step_retain (w : world) (d : N) (ids : list N) (f : N) : world :=
   | Some x =>
       let keep := filter (retain_keeps ids) (x_ckpts x) in
       let drop := filter (fun c => negb (retain_keeps ids c)) (x_ckpts x) in
-      let '(w1, x1, _) := save_list_f w (with_ck x keep (x_pending x ++ drop) (x_cktasks x)) f in
-      set_db w1 d x1
+      match keep with
+      | [] => w   (* nothing would be retained: RetainOnly panics before it changes anything (repair D38) *)
+      | _ => let '(w1, x1, _) := save_list_f w (with_ck x keep (x_pending x ++ drop) (x_cktasks x)) f in
+             set_db w1 d x1
+      end
   | None => w
+  end.
+Definition retain_empty (w : world) (d : N) (ids : list N) : bool :=
+  match get_db w d with
+  | Some x => match filter (retain_keeps ids) (x_ckpts x) with [] => true | _ => false end
+  | None => false
   end.
 Definition retain_ok (w : world) (d : N) (ids : list N) (f : N) : bool :=
   match get_db w d with
